@@ -1,12 +1,13 @@
 #!/bin/bash
-# usage: try_mutant.sh <patch.diff> <check command...>   -- applies a patch to /repo, runs a check, always undoes it
+# usage: try_mutant.sh <patch.diff> <check command...>   -- applies a patch to the repository (IOPT_REPO, default /repo), runs a check, always undoes it
 set -u
+R=${IOPT_REPO:-/repo}
 PATCH=$(readlink -f "$1"); shift
-cd /repo && git diff --quiet || { echo "/repo is dirty"; exit 9; }
-trap 'git -C /repo checkout -- . 2>/dev/null' EXIT INT TERM HUP
-git -C /repo apply "$PATCH" || exit 9
-( cd /verif && "$@" ) > /tmp/try_mutant.$$.log 2>&1; rc=$?
-git -C /repo checkout -- .
+cd $R && git diff --quiet || { echo "$R is dirty"; exit 9; }
+trap 'git -C $R checkout -- . 2>/dev/null' EXIT INT TERM HUP
+git -C $R apply "$PATCH" || exit 9
+( cd /verif && IOPT_REPO=$R "$@" ) > /tmp/try_mutant.$$.log 2>&1; rc=$?
+git -C $R checkout -- .
 grep -E "VIOLATION|verdict|KNOWN|INCONCLUSIVE|HARNESS" /tmp/try_mutant.$$.log | head -8
 rm -f /tmp/try_mutant.$$.log
 echo "exit=$rc"
